@@ -1197,6 +1197,21 @@ func c17Counter(use, def *c17F) string {
 	return ""
 }
 
+// c17DefOrdered writes a list whose order matters (position = id); Section.Def would sort it.
+func c17DefOrdered(w *Section, name, elem string, items []string) {
+	fmt.Fprintf(&w.buf, "def %s : List %s := [", name, elem)
+	for i, it := range items {
+		if i > 0 {
+			w.buf.WriteString(",")
+		}
+		w.buf.WriteString("\n  " + it)
+	}
+	if len(items) > 0 {
+		w.buf.WriteString("\n")
+	}
+	w.buf.WriteString("]\n\n")
+}
+
 func slicesCompact(l []string) []string {
 	var out []string
 	for i, s := range l {
@@ -1236,6 +1251,7 @@ func extractC17(p *Program, w *Section) {
 	w.Declare("c17Atoms", "TmplAtom")
 	w.Declare("c17Files", "TmplFile")
 	w.Declare("c17Names", "TmplName")
+	w.Declare("c17Tmpls", "String")
 	w.Declare("c17Defs", "TmplDef")
 	w.Declare("c17Uses", "TmplUse")
 	w.Declare("c17Hashes", "TmplHash")
@@ -1479,6 +1495,23 @@ func extractC17(p *Program, w *Section) {
 		pkg, name, _ := strings.Cut(n, "\x00")
 		nameItems = append(nameItems, fmt.Sprintf("⟨%d, %s, %s⟩", i, leanStr(pkg), leanStr(name)))
 	}
+	tmplSet := map[string]bool{}
+	for _, d := range allDefs {
+		tmplSet[d.tmpl] = true
+	}
+	for _, u := range allUses {
+		tmplSet[u.tmpl] = true
+	}
+	var tmpls, tmplItems []string
+	for t := range tmplSet {
+		tmpls = append(tmpls, t)
+	}
+	sort.Strings(tmpls)
+	tmplID := map[string]int{}
+	for i, t := range tmpls {
+		tmplID[t] = i
+		tmplItems = append(tmplItems, leanStr(t))
+	}
 	var fileItems []string
 	for i, fl := range files {
 		cond := c17Bin('|', fl.cond)
@@ -1487,11 +1520,11 @@ func extractC17(p *Program, w *Section) {
 	var defItems, useItems, defSigs, useSigs []string
 	for _, d := range allDefs {
 		defSigs = append(defSigs, leanStr(fmt.Sprintf("%s.%s | %s | %s | %s | %s", d.pkg, d.name, files[d.file].name, d.tmpl, d.kind, d.guard.pretty())))
-		defItems = append(defItems, fmt.Sprintf("⟨%d, %d, %s, %s, %s⟩", nameID[d.pkg+"\x00"+d.name], d.file, leanStr(d.tmpl), leanStr(d.kind), d.guard.lean(atomID)))
+		defItems = append(defItems, fmt.Sprintf("⟨%d, %d, %d, %s, %s⟩", nameID[d.pkg+"\x00"+d.name], d.file, tmplID[d.tmpl], leanStr(d.kind), d.guard.lean(atomID)))
 	}
 	for _, u := range allUses {
 		useSigs = append(useSigs, fmt.Sprintf("%s.%s | %s | %s | %s", u.pkg, u.name, files[u.file].name, u.tmpl, u.guard.pretty()))
-		useItems = append(useItems, fmt.Sprintf("⟨%d, %d, %s, %s⟩", nameID[u.pkg+"\x00"+u.name], u.file, leanStr(u.tmpl), u.guard.lean(atomID)))
+		useItems = append(useItems, fmt.Sprintf("⟨%d, %d, %d, %s⟩", nameID[u.pkg+"\x00"+u.name], u.file, tmplID[u.tmpl], u.guard.lean(atomID)))
 	}
 
 	if p.Verbose {
@@ -1539,15 +1572,17 @@ func extractC17(p *Program, w *Section) {
 		}
 	}
 
-	w.Comment("Distinct guard pipelines of gen/templates/go_*.go.tmpl and conditions of language.templates; ⟨id, canonical text⟩.")
-	w.Def("c17Atoms", "TmplAtom", atomItems)
-	w.Comment("Go files of languages[\"go\"]; ⟨id, output file, template, generated package, condition of language.templates⟩.")
-	w.Def("c17Files", "TmplFile", fileItems)
-	w.Comment("Identifiers declared at top level by template text; ⟨id, package, name⟩.")
-	w.Def("c17Names", "TmplName", nameItems)
-	w.Comment("Declaration sites; ⟨name id, file id, define block, kind, guard⟩.")
+	w.Comment("Distinct guard pipelines of gen/templates/go_*.go.tmpl and conditions of language.templates; ⟨id, canonical text⟩, position = id.")
+	c17DefOrdered(w, "c17Atoms", "TmplAtom", atomItems)
+	w.Comment("Go files of languages[\"go\"]; ⟨id, output file, template, generated package, condition of language.templates⟩, position = id.")
+	c17DefOrdered(w, "c17Files", "TmplFile", fileItems)
+	w.Comment("Identifiers declared at top level by template text; ⟨id, package, name⟩, position = id.")
+	c17DefOrdered(w, "c17Names", "TmplName", nameItems)
+	w.Comment("Define blocks that contain declarations or uses (`main` = top level of a file template); position = id.")
+	c17DefOrdered(w, "c17Tmpls", "String", tmplItems)
+	w.Comment("Declaration sites; ⟨name id, file id, define block id, kind, guard⟩.")
 	w.Def("c17Defs", "TmplDef", defItems)
-	w.Comment("Use sites (de-duplicated); ⟨name id, file id, define block, guard⟩.")
+	w.Comment("Use sites (de-duplicated); ⟨name id, file id, define block id, guard⟩.")
 	w.Def("c17Uses", "TmplUse", useItems)
 	sort.Strings(useSigs)
 	useSigs = slicesCompact(useSigs)
